@@ -37,6 +37,41 @@ CHECKS = {
              "while assembled) are not generated.",
         technique="TLA+ spec Mesh.tla: TLC BFS/-simulate generates histories + expected fresh model; replay into the real API",
         ref="DESIGN.md section 4 C12, Appendix B"),
+    "C05": dict(
+        text="Render.tla states the vertex rules relationally (positions, one vertex per position and slave-patch set, "
+             "master/slave separation, dense numbering); random programs of lattice hexahedra with arbitrary corner "
+             "numbering, insertion order, patches and merged pairs (incl. several pairs at one point), sub-tolerance "
+             "jitter and 3*TOL twins are executed and TLC judges every recorded (program, parsed file) pair.",
+        note="Trusted: blockMeshDict parser, position->id abstraction (nearest lattice point within 1e-6). Cases the "
+             "statement leaves open (different non-empty slave sets at one point; a block carrying master and slave of "
+             "one pair) are not generated / not judged.",
+        technique="TLA+ spec Render.tla as trace acceptor (TLC evaluates C05_* clauses on recorded executions)",
+        ref="DESIGN.md section 4 C05"),
+    "C06": dict(
+        text="Render.tla defines the expected blockMeshDict sections as relations between the abstract program and the "
+             "parsed file (blocks, zones, patches with types/settings/quads as 4-cycles of Hex.tla sides, projected faces, "
+             "vertex projections, default patch, merge pairs, geometry, settings, index ranges, VTK); TLC judges records of "
+             "random programs; side tables come from Hex.tla (derived from coordinates), never from the library.",
+        note="Counts/gradings are judged by C01-C04, edges by C07. Built-in geometry definition is judged on Hemisphere records.",
+        technique="TLA+ spec Render.tla + Hex.tla as trace acceptor over recorded program executions",
+        ref="DESIGN.md section 4 C06, Appendix B"),
+    "C07": dict(
+        text="Render.tla C07_* clauses: every entry lies on a block edge, one entry per vertex pair, every writable user "
+             "edge (given between two positions with a data direction) is realised with its kind/data and a drawn curve "
+             "consistent with the entry's vertex order, lines/collinear arcs absent; programs put all edge kinds on all 12 "
+             "positions of operations whose faces are used as given, inverted, shifted or re-oriented, and define edges twice.",
+        note="The harness decodes edge data geometrically (which user data id, drawn curve = user's curve?) with its own "
+             "arc formulas; OnCurve edges are C16's.",
+        technique="TLA+ spec Render.tla as trace acceptor; edge direction via predicate abstraction",
+        ref="DESIGN.md section 4 C07"),
+    "C10": dict(
+        text="Render.tla C10_* clauses judge recorded face manipulations step by step (invert reverses the cyclic order, "
+             "shift keeps it, reorient additionally starts at the nearest point; every edge still joins its two points), "
+             "faces obtained by side name, and - through the written file - that patches, projected sides, edges and "
+             "corners addressed by side name / corner numbers land on the Hex.tla side/edge/corner.",
+        note="Hex.tla is the reference for the hexahedron convention; its tables are compared with the Python mirror at setup.",
+        technique="TLA+ specs Hex.tla/Render.tla as trace acceptor over recorded face histories and written files",
+        ref="DESIGN.md section 4 C10"),
 }
 
 def main():
